@@ -1,3 +1,4 @@
+import BlockCiphers.Proofs.GenTables
 import BlockCiphers.Proofs.SerpentSpec
 import BlockCiphers.Proofs.TwofishSpec
 import BlockCiphers.Proofs.Cast6Spec
@@ -7,6 +8,73 @@ C08 — Serpent, Twofish and CAST-256 conform, including variable key sizes
 GENERATED statement file (tools/gen_thm.py): every theorem below restates, verbatim, a theorem of a Proofs/ module
 and is proved by applying it.  ONLY property theorems and non-vacuity examples live in Thm/.
 -/
+
+namespace BC.GenTables
+open BC.Gen
+theorem C08.cast6_S1_eq : cast6_S1.toList = nats32 BC.Cast6.S1 :=
+  _root_.BC.GenTables.cast6_S1_eq
+end BC.GenTables
+
+namespace BC.GenTables
+open BC.Gen
+theorem C08.cast6_S2_eq : cast6_S2.toList = nats32 BC.Cast6.S2 :=
+  _root_.BC.GenTables.cast6_S2_eq
+end BC.GenTables
+
+namespace BC.GenTables
+open BC.Gen
+theorem C08.cast6_S3_eq : cast6_S3.toList = nats32 BC.Cast6.S3 :=
+  _root_.BC.GenTables.cast6_S3_eq
+end BC.GenTables
+
+namespace BC.GenTables
+open BC.Gen
+theorem C08.cast6_S4_eq : cast6_S4.toList = nats32 BC.Cast6.S4 :=
+  _root_.BC.GenTables.cast6_S4_eq
+end BC.GenTables
+
+namespace BC.GenTables
+open BC.Gen
+theorem C08.cast6_TM_eq : cast6_TM.toList = nats32 BC.Cast6.TM :=
+  _root_.BC.GenTables.cast6_TM_eq
+end BC.GenTables
+
+namespace BC.GenTables
+open BC.Gen
+theorem C08.cast6_TR_eq : cast6_TR.toList = nats8 BC.Cast6.TR :=
+  _root_.BC.GenTables.cast6_TR_eq
+end BC.GenTables
+
+namespace BC.GenTables
+open BC.Gen
+theorem C08.twofish_QORD_eq : twofish_QORD.toList = (BC.Twofish.QORD.toList.map Array.toList).flatten :=
+  _root_.BC.GenTables.twofish_QORD_eq
+end BC.GenTables
+
+namespace BC.GenTables
+open BC.Gen
+theorem C08.twofish_QBOX_eq : twofish_QBOX.toList =
+    ((BC.Twofish.QBOX.toList.map (fun q => (q.toList.map nats8).flatten))).flatten :=
+  _root_.BC.GenTables.twofish_QBOX_eq
+end BC.GenTables
+
+namespace BC.GenTables
+open BC.Gen
+theorem C08.twofish_RS_eq : twofish_RS.toList = (BC.Twofish.RS.toList.map nats8).flatten :=
+  _root_.BC.GenTables.twofish_RS_eq
+end BC.GenTables
+
+namespace BC.GenTables
+open BC.Gen
+theorem C08.twofish_MDS_POLY_eq : twofish_MDS_POLY = BC.Twofish.MDS_POLY.toNat :=
+  _root_.BC.GenTables.twofish_MDS_POLY_eq
+end BC.GenTables
+
+namespace BC.GenTables
+open BC.Gen
+theorem C08.serpent_PHI_eq : serpent_PHI = BC.Serpent.PHI.toNat :=
+  _root_.BC.GenTables.serpent_PHI_eq
+end BC.GenTables
 
 namespace BC.Serpent
 open BC.Spec.Serpent
